@@ -964,4 +964,45 @@ def load_program(root=None, overlay=None, inline=True):
     return repo0, types0
   repo1 = Repo(root=root, overlay=overlay, trees=trees)
   repo1.normalised_units = sorted(trees)
+  repo1.absorbed = _drop_absorbed(repo1)
   return repo1, Types(repo1)
+
+
+def _drop_absorbed(repo):
+  """a helper whose every call site received its body, and that is referenced nowhere else in the program, is dead code of
+  the normalised program: it is taken out of the model, so that per-function rules judge its statements where they run
+  (in the callers) and not out of context.  Returns the keys removed."""
+  spliced = set()
+  for f in repo.all_functions():
+    spliced |= set(f.inlined_from)
+  if not spliced:
+    return []
+  refs = {}
+  for m in repo.modules.values():
+    for x in ast.walk(m.tree):
+      if isinstance(x, ast.Attribute):
+        refs[x.attr] = refs.get(x.attr, 0) + 1
+      elif isinstance(x, ast.Name) and isinstance(x.ctx, ast.Load):
+        refs[x.id] = refs.get(x.id, 0) + 1
+      elif isinstance(x, ast.Constant) and isinstance(x.value, str) and x.value.isidentifier():
+        refs[x.value] = refs.get(x.value, 0) + 1          # getattr(obj, 'name') and the like
+  gone = []
+  for m in repo.modules.values():
+    for q, variants in list(m.functions.items()):
+      keep = []
+      for f in variants:
+        if f.key in spliced and f.name not in NEVER_INLINE and not refs.get(f.name) and not f.name.startswith('__'):
+          gone.append(f.key)
+          if f.cls is not None and f.cls.methods.get(f.name) is f:
+            del f.cls.methods[f.name]
+        else:
+          keep.append(f)
+      if keep:
+        m.functions[q] = keep
+      else:
+        del m.functions[q]
+    # functions nested in a removed one go with it
+    for q in list(m.functions):
+      if any(q.startswith(g.split(':', 1)[1] + '.') for g in gone if g.split(':', 1)[0] == m.name):
+        del m.functions[q]
+  return sorted(gone)
